@@ -8,7 +8,67 @@ TB_COMMON = [
     "rustc / std (HashMap, sort stability, f64 formatting) are outside the model",
 ]
 
+def _fams(x):
+    return [f.split("^") for f in x.split(" | ")] if "^" in x else None
+
+
+def gather_names(x):
+    """reduce a gather output line to the family names (C06 only cares which collectors are visible)"""
+    f = _fams(x)
+    return x if f is None else "G " + ",".join(p[0] for p in f)
+
+
+def gather_names_labels(x):
+    """family names + label names of every sample (C09)"""
+    f = _fams(x)
+    if f is None:
+        return x
+    out = []
+    for p in f:
+        samples = p[3].split(";") if len(p) > 3 and p[3] != "-" else []
+        out.append(p[0] + "{" + ";".join(",".join(kv.split(":")[0] for kv in smp.split("=")[0].split(",")) for smp in samples) + "}")
+    return "G " + " ".join(out)
+
+
+def gather_types(x):
+    """family name, type and the value read through that type (C14)"""
+    f = _fams(x)
+    if f is None:
+        return x
+    return "G " + " ".join(p[0] + ":" + p[2] + ":" + ",".join(sorted(smp.split("=")[-1] for smp in (p[3].split(";") if len(p) > 3 else []))) for p in f)
+
+
+REG_RULE = ("case = one registry (prefix / common labels incl. invalid ones) + 2-6 collector definitions (counter, int counter, gauge, int gauge, histogram, "
+            "pulling gauge, counter/gauge vectors with 0-4 children, custom multi-descriptor collectors; names, help texts, const labels drawn from small "
+            "overlapping pools) + 4-16 register/unregister/redefine/gather calls; non-trivial = at least two successful and one refused registration; distinct by request text")
+
 PROPS = {
+    "C06": dict(
+        module="Prom.Props.C06",
+        areas=[dict(area="reg", quick=1200, thorough=50000,
+                    classes=["admission-wrong", "admission-error-kind", "unregister-wrong", "harness-panic"],
+                    mask=[(gather_names, None)])],
+        rule=REG_RULE,
+        trusted=["descriptor ids / dimension hashes are the model's FNV-1a values (C15 relates them to structure up to collisions)",
+                 "the oracle applies the admission rule to the collector's descriptors in the collector's own order (first offending descriptor decides the error kind)"],
+    ),
+    "C07": dict(
+        module="Prom.Props.C07",
+        areas=[dict(area="reg", quick=1200, thorough=50000,
+                    classes=["gather-mismatch", "gather-order-dependent", "harness-panic"],
+                    mask=[(r"^err:\w+$", "err")])],
+        rule=REG_RULE + "; every gather is repeated on two fresh registries with the collectors registered in other orders",
+        trusted=["HashMap iteration order = arbitrary list order (theorems quantify over it where stated); BTreeMap = name-sorted association list",
+                 "sort_by is a stable sort (modelled as stable insertion sort)"],
+    ),
+    "C14": dict(
+        module="Prom.Props.C14",
+        areas=[dict(area="reg", quick=1200, thorough=50000,
+                    classes=["family-mixes-types", "mixed-kinds-same-name", "harness-panic"],
+                    mask=[(gather_types, None), (r"^err:\w+$", "err")])],
+        rule=REG_RULE + "; non-trivial additionally counts cases with several collectors under one name",
+        trusted=["a sample's value is read through the family's declared type with proto2 default-on-read (as the encoders do)"],
+    ),
     "C05": dict(
         module="Prom.Props.C05",
         areas=[dict(area="vec", quick=1500, thorough=60000,
@@ -25,7 +85,10 @@ PROPS = {
         module="Prom.Props.C09",
         areas=[dict(area="desc", quick=3000, thorough=100000,
                     classes=["accept-.*", "reject-wellformed", "fq-name", "harness-panic"],
-                    mask=[(r" id=[0-9a-f]+ dim=[0-9a-f]+", "")])],
+                    mask=[(r" id=[0-9a-f]+ dim=[0-9a-f]+", "")]),
+               dict(area="reg", quick=800, thorough=30000,
+                    classes=["gathered-name-invalid", "gathered-duplicate-label", "registry-accepts-invalid-names", "registry-refuses-valid-names", "harness-panic"],
+                    mask=[(gather_names_labels, None)])],
         rule="case = 2-4 related constructor requests (Desc::new and all 10 metric constructors; names from an adversarial pool "
              "of ASCII/non-ASCII letters, digits, punctuation, empty; mutations: const->var, shuffles, boundary shifts); "
              "non-trivial = at least two accepted descriptors in the case; distinct by request text",
